@@ -16,7 +16,7 @@ instantiated with the executable MD5 of `Qx.Crypto.Md5` (cross-checked against h
             full:<m> (holds m bytes, then takes 0) | fail:<m> (a write beyond byte m fails with -1)
   deliver | drop | dup | swap | flip <bit> | eclose | wsid | wsender [<which other JID>]
   inj <sender> <sid> (open <bs> | data <seq> <hex|-> | rawdata <seq> <hex of element text> | close)
-  lose | rinj <origin> <back> ok|<condition> | pclose
+  lose | rinj <origin> <back> ok|<condition> | pclose | timeout (the inactivity timers of the jobs in TransferState fire)
   ssend <scenario>   → final error of the SOCKS5 sending job (`ssendOutcome`)
       → <replies>|R <state> <error> <len> <digest> d<job's byte counter> f<finished signals> e<error signals>
           (len / digest: what the DEVICE holds)
@@ -81,7 +81,7 @@ structure D where
   socks : Recv
 
 def showR (r : Recv) : String :=
-  s!"R {showState r.state} {showErr r.error} {r.acc.length} {digest r.acc} d{r.acc.length} f{r.finishedSignals} e{r.errorSignals}"
+  s!"R {showState r.state} {showErr r.error} {r.acc.length} {digest r.acc} d{r.fed.length} f{r.finishedSignals} e{r.errorSignals}"
 
 def showTail (d : D) : String :=
   let s := d.st.s
@@ -91,7 +91,7 @@ def obs (d : D) (rs : List Reply) : String :=
   (if rs.isEmpty then "-" else ",".intercalate (rs.map showReply)) ++ showTail d
 
 def showSocks (r : Recv) : String :=
-  s!"R {showState r.state} {showErr r.error} {r.acc.length} {digest r.acc} d{r.acc.length} f{r.finishedSignals}"
+  s!"R {showState r.state} {showErr r.error} {r.acc.length} {digest r.acc} d{r.fed.length} f{r.finishedSignals}"
 
 def apply (d : D) (op : Op) : D × String :=
   let x := step H d.st op
@@ -184,6 +184,7 @@ def stepLine (d : D) (line : String) : D × String :=
       | _ => none
     (d, match o with | some e => showErr e | none => "bad-op")
   | ["lose"] => apply d .lose
+  | ["timeout"] => apply d .timeout
   -- a response IQ reaches the sending client: rinj <origin: 0 = the peer> <back: 0 = id of its last request> ok|<condition>
   | ["rinj", o, b, c] =>
     match o.toNat?, b.toNat?, parseCond c with
